@@ -94,18 +94,21 @@ def get_widths2(seq: Iterable[object]) -> Dict[int, Tuple[float, Point]]:
     widths: Dict[int, Tuple[float, Point]] = {}
     r: List[float] = []
     for v in seq:
+        v = resolve1(v)
         if isinstance(v, list):
             if r:
                 char1 = r[-1]
-                for i, (w, vx, vy) in enumerate(choplist(3, v)):
-                    widths[cast(int, char1) + i] = (w, (vx, vy))
+                if isinstance(char1, int):
+                    for i, (w, vx, vy) in enumerate(choplist(3, v)):
+                        widths[char1 + i] = (num_value(w), (num_value(vx), num_value(vy)))
                 r = []
         elif isinstance(v, (int, float)):  # == utils.isnumber(v)
             r.append(v)
             if len(r) == 5:
                 (char1, char2, w, vx, vy) = r
-                for i in range(cast(int, char1), cast(int, char2) + 1):
-                    widths[i] = (w, (vx, vy))
+                if isinstance(char1, int) and isinstance(char2, int):
+                    for i in range(char1, char2 + 1):
+                        widths[i] = (w, (vx, vy))
                 r = []
     return widths
 
